@@ -153,7 +153,7 @@ Fixpoint sp_to (g : graph) (ex : list label) (memo : list (label * list label)) 
   | b :: r =>
       match some_path_pair g ex memo a b with
       | None => None
-      | Some (_ :: _ as p, memo') => Some (p, memo')
+      | Some ((_ :: _) as p, memo') => Some (p, memo')
       | Some ([], memo') => sp_to g ex memo' a r
       end
   end.
@@ -165,7 +165,7 @@ Fixpoint sp_from (g : graph) (ex : list label) (memo : list (label * list label)
   | a :: r =>
       match sp_to g ex memo a tos with
       | None => None
-      | Some (_ :: _ as p, _) => Some p
+      | Some ((_ :: _) as p, _) => Some p
       | Some ([], memo') => sp_from g ex memo' r tos
       end
   end.
